@@ -185,6 +185,8 @@ class Engine:
         self.loop_old: dict = {}
         self.bound_vars = []
         self.byte_arrays = {}
+        self.agree = {}
+        self.quant_branched = False
         self.try_depth = 0
         self.cur_frame = None
         self.no_note = False
@@ -226,6 +228,8 @@ class Engine:
             return False
         if self.spec:
             raise EngineError("branch() while evaluating a spec expression")
+        if not self.quant_branched and has_quantifier(cond):
+            self.quant_branched = True       # decided on the quantifier-free part only: re-checked at exit
         if self.pos < len(self.trace):
             d = self.trace[self.pos]
         else:
